@@ -91,14 +91,74 @@ fn render_case(d: &Value, input: &[Value]) -> Option<String> {
     s.push('{');
     s.push_str(&render(d["body"].as_array().unwrap(), true)?);
     s.push('}');
-    s.push_str("\\!");
-    // TeX removes trailing spaces of a line before lexing it: such an input cannot be written
-    if input.last().map(|t| t["t"] == "sp").unwrap_or(false) {
+    // \! is a control symbol: a following space *is* a token.  TeX removes trailing spaces of a line before
+    // lexing it, and no line contains two space tokens in a row: such inputs are assembled by a second macro
+    // from brace groups (they arise in real documents exactly like this, by substitution).
+    let direct = if input.last().map(|t| t["t"] == "sp").unwrap_or(false) { None } else { render(input, false) };
+    match direct {
+        Some(text) => {
+            s.push_str("\\!");
+            s.push_str(&text);
+        }
+        None => s.push_str(&render_wrapped(input)?),
+    }
+    Some(s)
+}
+
+/// `\def\?#1..#k{\!#1..#k}\?{chunk 1}..{chunk k}`: every space token is a chunk of its own, the tokens between
+/// spaces are chunks (they must be brace-balanced to be written in braces); at most nine chunks.
+fn render_wrapped(input: &[Value]) -> Option<String> {
+    let mut chunks: Vec<Vec<Value>> = vec![];
+    let mut cur: Vec<Value> = vec![];
+    for t in input {
+        if t["t"] == "sp" {
+            if !cur.is_empty() {
+                chunks.push(std::mem::take(&mut cur));
+            }
+            chunks.push(vec![t.clone()]);
+        } else {
+            cur.push(t.clone());
+        }
+    }
+    if !cur.is_empty() {
+        chunks.push(cur);
+    }
+    if chunks.is_empty() || chunks.len() > 9 {
         return None;
     }
-    // \! is a control symbol: a following space *is* a token
-    s.push_str(&render(input, false)?);
-    // an input ending in a control word would swallow nothing (end of line, no end-line char)
+    for c in &chunks {
+        let mut depth = 0i32;
+        for t in c {
+            match t["t"].as_str().unwrap_or("") {
+                "lb" => depth += 1,
+                "rb" => {
+                    depth -= 1;
+                    if depth < 0 {
+                        return None;
+                    }
+                }
+                "hash" | "par" => return None,
+                _ => {}
+            }
+        }
+        if depth != 0 {
+            return None;
+        }
+    }
+    let mut s = String::from("\\def\\?");
+    for i in 1..=chunks.len() {
+        s.push_str(&format!("#{i}"));
+    }
+    s.push_str("{\\!");
+    for i in 1..=chunks.len() {
+        s.push_str(&format!("#{i}"));
+    }
+    s.push_str("}\\?");
+    for c in &chunks {
+        s.push('{');
+        s.push_str(&render(c, false)?);
+        s.push('}');
+    }
     Some(s)
 }
 
